@@ -247,6 +247,15 @@ PROPS["C05"] = {
     ],
 }
 
+_GC = _json.load(open(os.path.join(os.path.dirname(os.path.dirname(os.path.abspath(__file__))), "harness/gencorp/names.json")))
+
+
+def _gc_subset(offset):
+    """a seed-rotated third of the generated single-method-trait corpus for the quick tier"""
+    seed = int(os.environ.get("VERIF_SEED", "0") or 0)
+    return [n for i, n in enumerate(_GC) if (i + seed + offset) % 3 == 0]
+
+
 PROPS["C01"] = {
     "crate": "gen",
     "groups": [
@@ -260,6 +269,7 @@ PROPS["C01"] = {
                            "c01::c01_counter_mut_k4", "c01::c01_counter_ctxbox_k4", "c01::c01_consume_box_k3",
                            "c01::c01_consume_ctxbox_k3", "c01::c01_group_box_k4", "c01::c01_group_cast_k3", "c01::c01_group_mut_k4"],
          "timeout": 3000},
+        {"id": "corpus", "crate": "gencorp", "quick": _gc_subset(0), "thorough": list(_GC), "timeout": 900},
     ],
     "negative": ["c01::c01_negative_twin"],
     "bounds": "every call sequence of length 3 (thorough 4) with the operation and all arguments symbolic at every step, symbolic "
@@ -268,7 +278,9 @@ PROPS["C01"] = {
               "arguments), a 9-method mixed-receiver trait (&self, &mut self, Pin<&mut Self>, Pin<&Self>, int_result, mutable "
               "slice, Option swap, skip_func), a trait with a by-value method, a generic trait, a lifetime-parameterised trait; "
               "containers Box / &mut / & / CArcSome / Box+context; single-trait object, group, as_ref!/as_mut! views, cast!, "
-              "into!, cast back (From)",
+              "into!, cast back (From); plus a GENERATED corpus of 176 single-method traits covering pairwise receiver "
+              "{&self,&mut self,self,Pin<&Self>,Pin<&mut Self>} x 12 argument shapes x 9 return shapes (one call each, "
+              "symbolic state and arguments; quick tier: a seed-rotated third)",
     "outside": "the 'programs' quantifier is bounded by the enumerated corpus (the generator itself - a syn/quote program over "
                "heap token trees - is not executed symbolically); sequences longer than 4 (the per-step state equality is an "
                "inductive argument a reader can make, it is not claimed); custom_impl / vtbl_only methods (excluded by the "
@@ -287,13 +299,16 @@ PROPS["C02"] = {
          "quick": ["c02::c02_args_slices", "c02::c02_args_mutable", "c02::c02_args_values", "c02::c02_args_callback_iterator",
                    "c02::c02_returns", "c02::c02_boxed_object", "c02::c02_negative_twin"],
          "timeout": 1800},
+        {"id": "corpus", "crate": "gencorp", "quick": _gc_subset(1), "thorough": list(_GC), "timeout": 900},
     ],
     "negative": ["c02::c02_negative_twin"],
     "bounds": "shapes {&[u8], &[u64], &[ZST], &mut [u8], &str (symbolic ASCII + fixed multi-byte + empty), Option<u32>, Option<&u64>, "
               "Result<u32,u8>, impl Into<u64>, repr(C) struct by value, &mut u64, two slices, OpaqueCallback<u8>, CIterator<u8>} in "
               "argument position and {&[u8], &[u64], &mut [u8], &str, Option<u32>, Option<&u64>, Result<u64,u8>, int-coded "
               "Result<u64,()> and Result<(),()>, struct, extreme i64} in return position; slice lengths 0..=4 and all contents, "
-              "variants, integers symbolic; the implementor records address/length/elements of what it received",
+              "variants, integers symbolic; the implementor records address/length/elements of what it received; plus the "
+              "generated single-method-trait corpus of C01 (every argument/return shape in every receiver position the "
+              "generator accepts, pairwise; quick tier: a seed-rotated third)",
     "outside": "shapes not listed; element types beyond {u8,u64,ZST}; strings are ASCII-symbolic plus fixed multi-byte samples "
                "(into_str is unchecked: validity is the caller's contract)",
     "assumptions": KANI_ASSUME,
